@@ -1,12 +1,602 @@
-// Package c19 checks property C19 (not built yet).
+// Package c19 checks property C19: Module.WriteTo honours the io.WriterTo
+// contract, also when the writer fails.
+//
+// (S) spec/Writer.tla: the fmtWriter state machine against writer models; TLC
+// checks the contract exhaustively for small chunk sequences and shows what
+// the deviations (no latch, counting offered bytes, ...) break.
+// (G) Writer.tla run on the chunk sizes of real modules generates, for every
+// writer behaviour, the outcome the specification requires; the real
+// Module.WriteTo is run against an instrumented writer of that behaviour and
+// compared.
+// (T) every run (Write log, returned n and error identity, bytes delivered
+// versus String()) is recorded and judged by spec/WriterTrace.tla.
 package c19
 
 import (
+	"fmt"
+	"math/rand"
+	"os"
+	"path/filepath"
+	"regexp"
+	"sort"
+	"strconv"
+	"strings"
+	"sync"
+	"time"
+
 	"verif/harness/mbt"
 	"verif/harness/props/reg"
 )
 
 func init() { reg.Register("C19", Run) }
 
+// runRec is one row of writer_rec.ndjson (see spec/WriterTrace.tla).
+type runRec struct {
+	ID   int    `json:"id"`
+	Mode string `json:"mode"`
+	St   int    `json:"st"`
+	P    int    `json:"p"`
+	K    int    `json:"k"`
+	Off  []int  `json:"off"`
+	Acc  []int  `json:"acc"`
+	Err  []int  `json:"err"`
+	N    int64  `json:"n"`
+	E    int    `json:"e"`
+	Dlen int    `json:"dlen"`
+	Lcp  int    `json:"lcp"`
+	Slen int    `json:"slen"`
+	Sw   int    `json:"sw"`
+
+	src   int // index of the subject
+	panic string
+	b     behaviour
+}
+
+func lcp(a []byte, s string) int {
+	n := len(a)
+	if len(s) < n {
+		n = len(s)
+	}
+	for i := 0; i < n; i++ {
+		if a[i] != s[i] {
+			return i
+		}
+	}
+	return n
+}
+
+// runOne calls the real Module.WriteTo against an instrumented writer.
+func runOne(id, src int, s *subject, b behaviour, rng *rand.Rand) *runRec {
+	w := newWriter(b, len(s.Str), rng)
+	r := &runRec{ID: id, Mode: b.Mode, P: b.Piece, K: b.Cap, src: src, b: b, Slen: len(s.Str)}
+	if b.Sticky {
+		r.St = 1
+	}
+	var n int64
+	var err error
+	if msg, p := mbt.Guard(func() { n, err = s.M.WriteTo(w) }); p {
+		r.panic = msg
+	}
+	r.N, r.E = n, w.errIdentity(err)
+	r.Off, r.Acc, r.Err = make([]int, len(w.log)), make([]int, len(w.log)), make([]int, len(w.log))
+	for i, c := range w.log {
+		r.Off[i], r.Acc[i], r.Err[i] = c.off, c.acc, c.err
+	}
+	r.Dlen, r.Lcp, r.Sw = len(w.sink), lcp(w.sink, s.Str), w.sinkW
+	return r
+}
+
+// offsets chooses the failure offsets for a module of length L.
+func offsets(L int, chunks []int, all bool, stride int) []int {
+	set := map[int]bool{0: true, L: true, L + 3: true}
+	if L > 0 {
+		set[L-1] = true
+		set[1] = true
+	}
+	if all {
+		for k := 0; k <= L; k++ {
+			set[k] = true
+		}
+	} else {
+		for k := 0; k <= L; k += stride {
+			set[k] = true
+		}
+		pos := 0
+		for _, c := range chunks { // every chunk boundary and its neighbours
+			pos += c
+			for _, k := range []int{pos - 1, pos, pos + 1} {
+				if k >= 0 && k <= L {
+					set[k] = true
+				}
+			}
+		}
+	}
+	ks := make([]int, 0, len(set))
+	for k := range set {
+		ks = append(ks, k)
+	}
+	sort.Ints(ks)
+	return ks
+}
+
+type tlcJob struct {
+	name string
+	opts mbt.TLCOpts
+	// want: invariant names that must be violated (empty: none may be)
+	want []string
+	res  *mbt.TLCResult
+}
+
+// cfgWith returns the text of spec/<file> with the INVARIANTS line and some constants replaced.
+func cfgWith(file string, invariants []string, consts map[string]string) []byte {
+	b, err := os.ReadFile(filepath.Join(mbt.Root, "spec", file))
+	if err != nil {
+		mbt.Infra("%v", err)
+	}
+	var out []string
+	for _, l := range strings.Split(string(b), "\n") {
+		f := strings.Fields(l)
+		if len(f) > 0 && (f[0] == "INVARIANTS" || f[0] == "INVARIANT") && invariants != nil {
+			l = "INVARIANTS " + strings.Join(invariants, " ")
+		}
+		if len(f) >= 3 && f[1] == "=" {
+			if v, ok := consts[f[0]]; ok {
+				l = "  " + f[0] + " = " + v
+			}
+		}
+		out = append(out, l)
+	}
+	return []byte(strings.Join(out, "\n"))
+}
+
+// design runs the design-level TLC checks: the wrapper as written satisfies the
+// contract on every small behaviour, every named deviation is caught by the
+// invariants it should break, the guards are not vacuous.
+func design(rep *mbt.Report, tier string) {
+	var jobs []*tlcJob
+	main := map[string]string{}
+	dev := map[string]string{"MaxChunks": "3"}
+	if tier == "thorough" {
+		main = map[string]string{"MaxChunks": "5", "Pieces": "{0, 1, 2, 3}"}
+		dev = map[string]string{}
+	}
+	add := func(name, spec, file string, inv []string, consts map[string]string, want []string) {
+		cfgName := strings.ReplaceAll(name, "/", ".") + ".cfg"
+		jobs = append(jobs, &tlcJob{name: name, want: want, opts: mbt.TLCOpts{Spec: spec, Cfg: cfgName, Workers: 4, Timeout: 15 * time.Minute,
+			Data: map[string][]byte{cfgName: cfgWith(file, inv, consts)}}})
+	}
+	add("as-written", "Writer", "Writer.cfg", nil, main, nil)
+	add("rechunk-equiv", "WriterEquiv", "WriterEquiv.cfg", nil, nil, nil)
+	merge := func(a, b map[string]string) map[string]string {
+		m := map[string]string{}
+		for k, v := range a {
+			m[k] = v
+		}
+		for k, v := range b {
+			m[k] = v
+		}
+		return m
+	}
+	// the early return removed
+	for _, inv := range []string{"FirstError", "NoWriteAfterFailure", "PrefixDelivered"} {
+		add("no-latch/"+inv, "Writer", "WriterNoLatch.cfg", []string{inv}, dev, []string{inv})
+	}
+	add("no-latch/CountExact", "Writer", "WriterNoLatch.cfg", []string{"CountExact", "NoFailEqualsString"}, dev, nil)
+	// bytes offered are counted instead of bytes accepted
+	add("count-offered/CountExact", "Writer", "Writer.cfg", []string{"CountExact"}, merge(dev, map[string]string{"CountAccepted": "FALSE"}), []string{"CountExact"})
+	// no early return, but err assigned only while nil: keeps the first error, still writes after it
+	kf := merge(dev, map[string]string{"LatchError": "FALSE", "KeepFirstError": "TRUE"})
+	add("keep-first/FirstError", "Writer", "Writer.cfg", []string{"FirstError", "CountExact"}, kf, nil)
+	add("keep-first/NoWriteAfterFailure", "Writer", "Writer.cfg", []string{"NoWriteAfterFailure"}, kf, []string{"NoWriteAfterFailure"})
+	// a writer that violates the io.Writer contract
+	add("silent/still-counts", "Writer", "WriterSilent.cfg", []string{"TypeOK", "CountExact", "SilentStillCounts"}, nil, nil)
+	add("silent/prefix", "Writer", "WriterSilent.cfg", []string{"PrefixDeliveredAnyWriter"}, nil, []string{"PrefixDeliveredAnyWriter"})
+	for _, inv := range []string{"NeverFails", "AlwaysFails", "NeverSkips"} {
+		add("vacuity/"+inv, "Writer", "WriterVacuity.cfg", []string{inv}, nil, []string{inv})
+	}
+	sem := make(chan struct{}, 3)
+	var wg sync.WaitGroup
+	for _, j := range jobs {
+		wg.Add(1)
+		go func(j *tlcJob) {
+			defer wg.Done()
+			sem <- struct{}{}
+			defer func() { <-sem }()
+			j.res = mbt.MustTLC(j.opts)
+		}(j)
+	}
+	wg.Wait()
+	outcome := map[string]interface{}{}
+	for _, j := range jobs {
+		got := append([]string{}, j.res.Violated...)
+		sort.Strings(got)
+		want := append([]string{}, j.want...)
+		sort.Strings(want)
+		if strings.Join(got, ",") != strings.Join(want, ",") {
+			mbt.Infra("Writer.tla, configuration %s: TLC reports violated=%v, the specification expects %v (specification error)", j.name, got, want)
+		}
+		outcome[j.name] = map[string]interface{}{"states": j.res.Distinct, "violated": got}
+		if j.name == "as-written" || j.name == "rechunk-equiv" {
+			rep.AddTLC(j.res)
+		}
+		j.res.Cleanup()
+	}
+	rep.Extra["design_level_tlc"] = outcome
+}
+
+var reVec = regexp.MustCompile(`<<"VEC", (\d+), "(\w+)", (TRUE|FALSE), (-?\d+), (\d+), (\d+), (\d+), (\d+), (\d+), (\d+)>>`)
+var reBad = regexp.MustCompile(`<<"BADRUN", "(\w+)", \{([^}]*)\}, (\d+)>>`)
+
+type vector struct {
+	b                        behaviour
+	n, errAt, calls, dlen, sw int
+}
+
+// generate runs Writer.tla on the recorded chunk sizes of the small subjects (direction G).
+func generate(rep *mbt.Report, subs []*subject, small []int, pieces []int) map[string]vector {
+	var rows [][]int
+	for _, si := range small {
+		rows = append(rows, subs[si].Chunks)
+	}
+	ps := make([]string, len(pieces))
+	for i, p := range pieces {
+		ps[i] = strconv.Itoa(p)
+	}
+	t := mbt.MustTLC(mbt.TLCOpts{Spec: "Writer", Cfg: "WriterGen.gen.cfg", Workers: 8, Timeout: 15 * time.Minute,
+		Data: map[string][]byte{
+			"WriterGen.gen.cfg": cfgWith("WriterGen.cfg", nil, map[string]string{"Pieces": "{" + strings.Join(ps, ", ") + "}"}),
+			"chunks.ndjson":     mbt.NDJSONBytes(rows)}})
+	defer t.Cleanup()
+	if len(t.Violated) > 0 {
+		mbt.Infra("Writer.tla (as written) violates %v on the chunk sequences of real modules: specification error\n%s", t.Violated, mbt.Truncate(t.Output, 3000))
+	}
+	rep.AddTLC(t)
+	vecs := map[string]vector{}
+	for _, m := range reVec.FindAllStringSubmatch(t.Output, -1) {
+		iv := func(i int) int { v, _ := strconv.Atoi(m[i]); return v }
+		v := vector{b: behaviour{Mode: m[2], Sticky: m[3] == "TRUE", Piece: iv(4), Cap: iv(5)}, n: iv(6), errAt: iv(7), calls: iv(8), dlen: iv(9), sw: iv(10)}
+		vecs[v.b.key(small[iv(1)-1])] = v
+	}
+	want := 0
+	for _, si := range small {
+		want += (len(subs[si].Str)+1)*4*len(pieces) + len(pieces)
+	}
+	if len(vecs) != want {
+		mbt.Infra("generator: %d vectors parsed, %d expected", len(vecs), want)
+	}
+	return vecs
+}
+
+// judge lets TLC judge the recorded runs (direction T) and files the failures.
+func judge(rep *mbt.Report, subs []*subject, recs []*runRec) {
+	byID := map[int]*runRec{}
+	for _, r := range recs {
+		byID[r.ID] = r
+	}
+	// batches bounded by rows and by log entries
+	var batches [][]*runRec
+	var cur []*runRec
+	entries := 0
+	for _, r := range recs {
+		if len(cur) > 0 && (len(cur) >= 60000 || entries+len(r.Off) > 1500000) {
+			batches = append(batches, cur)
+			cur, entries = nil, 0
+		}
+		cur = append(cur, r)
+		entries += len(r.Off)
+	}
+	if len(cur) > 0 {
+		batches = append(batches, cur)
+	}
+	equipment, model := 0, 0
+	for _, batch := range batches {
+		t := mbt.MustTLC(mbt.TLCOpts{Spec: "WriterTrace", Cfg: "WriterTrace.cfg", Workers: 8, Continue: true, Timeout: 20 * time.Minute,
+			Data: map[string][]byte{"writer_rec.ndjson": mbt.NDJSONBytes(batch)}})
+		nb := (len(batch) + 511) / 512
+		if t.Distinct != int64(len(batch)+nb+1) {
+			out := t.Output
+			t.Cleanup()
+			mbt.Infra("WriterTrace judged %d states, expected %d rows + %d blocks + 1\n%s", t.Distinct, len(batch), nb, mbt.Truncate(out, 3000))
+		}
+		for _, v := range t.Violated {
+			if v != "Judged" {
+				mbt.Infra("WriterTrace: unexpected violation %s", v)
+			}
+		}
+		rep.AddTLC(t)
+		rep.TracesValidated += len(batch)
+		for _, m := range reBad.FindAllStringSubmatch(t.Output, -1) {
+			id, _ := strconv.Atoi(m[3])
+			r := byID[id]
+			if r == nil {
+				mbt.Infra("WriterTrace names unknown run %d", id)
+			}
+			switch m[1] {
+			case "equipment":
+				equipment++
+				if equipment == 1 {
+					fmt.Printf("equipment mismatch on %s %+v: %s\n", subs[r.src].Name, r.b, describe(r))
+				}
+			case "model":
+				model++
+				if model == 1 {
+					fmt.Printf("as-written model mismatch on %s %+v: %s\n", subs[r.src].Name, r.b, describe(r))
+				}
+			default:
+				for _, law := range strings.Split(m[2], ",") {
+					law = strings.Trim(strings.TrimSpace(law), `"`)
+					rep.Fail(mbt.Failure{Signature: "C19|WriteTo|" + law + "|" + r.b.class(),
+						What: fmt.Sprintf("%s: writer %+v: %s", subs[r.src].Name, r.b, describe(r)),
+						Case: caseOf(subs[r.src], r)})
+				}
+			}
+		}
+		t.Cleanup()
+	}
+	if equipment > 0 {
+		mbt.Infra("%d recorded runs in which the instrumented writer did not behave as the writer model of Writer.tla says (test equipment or model error)", equipment)
+	}
+	if model > 0 {
+		mbt.Infra("%d recorded runs satisfy the laws but differ from the prediction of the fmtWriter model as written: the model does not describe the code", model)
+	}
+}
+
+func describe(r *runRec) string {
+	first := 0
+	acc := 0
+	for j := range r.Off {
+		acc += r.Acc[j]
+		if first == 0 && r.Err[j] != 0 {
+			first = j + 1
+		}
+	}
+	return fmt.Sprintf("WriteTo returned n=%d err=%s; writer saw %d Write calls, accepted %d bytes, first failing call %d; %d bytes delivered, %d of them a prefix of String() (len %d)",
+		r.N, errName(r.E), len(r.Off), acc, first, r.Dlen, r.Lcp, r.Slen)
+}
+
+func errName(e int) string {
+	switch {
+	case e == 0:
+		return "nil"
+	case e < 0:
+		return "an error the writer never returned"
+	}
+	return fmt.Sprintf("error of call %d", e)
+}
+
+func caseOf(s *subject, r *runRec) map[string]interface{} {
+	return map[string]interface{}{"subject": s.Name, "mode": r.b.Mode, "sticky": r.b.Sticky, "piece": r.b.Piece, "cap": r.b.Cap,
+		"observed": map[string]interface{}{"n": r.N, "e": r.E, "calls": len(r.Off), "dlen": r.Dlen, "lcp": r.Lcp, "slen": r.Slen}}
+}
+
+// prepare prints every subject once and records its chunk sizes.
+func prepare(rep *mbt.Report, subs []*subject) []*subject {
+	var ok []*subject
+	for _, s := range subs {
+		if msg, p := mbt.Guard(func() { s.Str = s.M.String() }); p {
+			rep.Note("%s: String() panics (%s): not usable for C19", s.Name, mbt.Truncate(msg, 120))
+			continue
+		}
+		ok = append(ok, s)
+	}
+	return ok
+}
+
 // Run is the C19 check.
-func Run(tier, replay string) { mbt.Infra("check C19 is not built yet") }
+func Run(tier, replay string) {
+	rep := mbt.NewReport("C19", tier, "model_checking")
+	rep.Rule = "distinct (module, writer behaviour) pairs on which the real Module.WriteTo was run against an instrumented writer and judged by TLC (WriterTrace.tla); behaviours = failure offset k x {whole-chunk, short-write} x {sticky, recovering} x re-chunking piece size, never-failing writers with fixed and random chunking, contract-violating silent short writes"
+	seed := mbt.Seed()
+	var cases []map[string]interface{}
+	if replay != "" {
+		var rf struct {
+			Tier     string `json:"tier"`
+			Seed     int64  `json:"seed"`
+			Failures []struct {
+				Case map[string]interface{} `json:"case"`
+			} `json:"failures"`
+		}
+		if err := mbt.ReadJSON(replay, &rf); err != nil {
+			mbt.Infra("replay %s: %v", replay, err)
+		}
+		if rf.Tier != "" {
+			tier = rf.Tier
+		}
+		seed = rf.Seed
+		for _, f := range rf.Failures {
+			if f.Case != nil {
+				cases = append(cases, f.Case)
+			}
+		}
+		if len(cases) == 0 {
+			mbt.Infra("replay %s: no case", replay)
+		}
+	}
+	rng := rand.New(rand.NewSource(seed))
+
+	if replay == "" {
+		design(rep, tier)
+	}
+
+	subs, rejected := corpus(tier, rng)
+	for _, r := range rejected {
+		rep.Note("not parsed, skipped: %s", mbt.Truncate(r, 160))
+	}
+	subs = prepare(rep, subs)
+	if len(subs) < 5 {
+		mbt.Infra("only %d usable modules", len(subs))
+	}
+	covered := map[string]bool{}
+	var recs []*runRec
+	id := 0
+	newRun := func(si int, b behaviour) *runRec {
+		id++
+		r := runOne(id, si, subs[si], b, rng)
+		recs = append(recs, r)
+		key := subs[si].Name + "|" + b.key(si)
+		rep.Count(key, true)
+		if r.panic != "" {
+			rep.Fail(mbt.Failure{Signature: "C19|WriteTo|panic|" + b.class(), What: fmt.Sprintf("%s: writer %+v: WriteTo panics: %s", subs[si].Name, b, mbt.Truncate(r.panic, 200)), Case: caseOf(subs[si], r)})
+		}
+		return r
+	}
+
+	if replay != "" {
+		for _, c := range cases {
+			name, _ := c["subject"].(string)
+			num := func(k string) int { f, _ := c[k].(float64); return int(f) }
+			mode, _ := c["mode"].(string)
+			st, _ := c["sticky"].(bool)
+			found := false
+			for si, s := range subs {
+				if s.Name == name {
+					found = true
+					base := runOne(0, si, s, behaviour{Mode: "never"}, rng)
+					s.Chunks = base.Off
+					newRun(si, behaviour{Mode: mode, Sticky: st, Piece: num("piece"), Cap: num("cap")})
+				}
+			}
+			if !found {
+				mbt.Infra("replay: no module named %q in the corpus", name)
+			}
+		}
+		judge(rep, subs, recs)
+		rep.Finish()
+	}
+
+	// baseline: a never-failing writer that takes every Write in one piece; its log is the chunk sequence
+	gPieces, tPieces := []int{0, 2, 7}, []int{0, 7}
+	gLimit, allLimit, stride := 700, 1600, 37
+	if tier == "thorough" {
+		gPieces, tPieces = []int{0, 1, 2, 7, 64}, []int{0, 1, 7, 64}
+		gLimit, allLimit, stride = 3000, 12000, 5
+	}
+	var small []int
+	allOffsets := []string{}
+	strided := []string{}
+	for si, s := range subs {
+		base := newRun(si, behaviour{Mode: "never"})
+		s.Chunks = base.Off
+		for _, sec := range sections(s.M) {
+			covered[sec] = true
+		}
+		L := len(s.Str)
+		isSmall := L <= gLimit
+		if isSmall {
+			small = append(small, si)
+		}
+		pieces := tPieces
+		if isSmall {
+			pieces = gPieces
+		}
+		// never-failing writers, however they chunk
+		for _, p := range []int{1, 2, 7, 64, -1, -1} {
+			newRun(si, behaviour{Mode: "never", Piece: p})
+		}
+		// contract-violating short writes without error
+		for _, k := range []int{0, 1, 2, 7, 64} {
+			newRun(si, behaviour{Mode: "silent", Cap: k})
+		}
+		all := isSmall || L <= allLimit
+		if all {
+			allOffsets = append(allOffsets, fmt.Sprintf("%s (%d bytes, %d writes)", s.Name, L, len(s.Chunks)))
+		} else {
+			strided = append(strided, fmt.Sprintf("%s (%d bytes, %d writes, stride %d + all write boundaries +-1)", s.Name, L, len(s.Chunks), stride))
+		}
+		ks := offsets(L, s.Chunks, all, stride)
+		if isSmall { // the generator enumerates 0..L exactly
+			ks = ks[:0]
+			for k := 0; k <= L; k++ {
+				ks = append(ks, k)
+			}
+		}
+		for _, k := range ks {
+			for _, mode := range []string{"whole", "prefix"} {
+				for _, st := range []bool{false, true} {
+					for _, p := range pieces {
+						newRun(si, behaviour{Mode: mode, Sticky: st, Piece: p, Cap: k})
+					}
+				}
+			}
+		}
+	}
+	var missing []string
+	for _, sec := range allSections {
+		if !covered[sec] {
+			missing = append(missing, sec)
+		}
+	}
+	if len(missing) > 0 {
+		mbt.Infra("corpus does not exercise these sections of Module.WriteTo: %v", missing)
+	}
+	rep.Extra["sections_of_WriteTo_exercised"] = allSections
+	rep.Extra["modules_every_offset"] = allOffsets
+	rep.Extra["modules_strided_offsets"] = strided
+
+	// (G) required outcomes generated by TLC from the specification, compared with the runs
+	vecs := generate(rep, subs, small, gPieces)
+	obs := map[string]*runRec{}
+	for _, r := range recs {
+		obs[r.b.key(r.src)] = r
+	}
+	keys := make([]string, 0, len(vecs))
+	for k := range vecs {
+		keys = append(keys, k)
+	}
+	sort.Strings(keys)
+	compared := 0
+	for _, k := range keys {
+		v := vecs[k]
+		r := obs[k]
+		if r == nil {
+			mbt.Infra("generator vector %s was not replayed", k)
+		}
+		compared++
+		var diff []string
+		if int64(v.n) != r.N {
+			diff = append(diff, "n")
+		}
+		if v.errAt != r.E {
+			diff = append(diff, "err")
+		}
+		if v.calls != len(r.Off) {
+			diff = append(diff, "calls")
+		}
+		if v.dlen != r.Dlen || r.Lcp != r.Dlen {
+			diff = append(diff, "delivered")
+		}
+		if len(diff) == 0 && v.sw != r.Sw {
+			mbt.Infra("vector %s: the sink saw %d writes, the writer model says %d (test equipment)", k, r.Sw, v.sw)
+		}
+		if len(diff) > 0 {
+			rep.Fail(mbt.Failure{Signature: "C19|WriteTo|required-outcome:" + strings.Join(diff, "+") + "|" + r.b.class(),
+				What: fmt.Sprintf("%s: writer %+v: specification requires n=%d err=%s calls=%d delivered=%d; %s", subs[r.src].Name, r.b, v.n, errName(v.errAt), v.calls, v.dlen, describe(r)),
+				Case: caseOf(subs[r.src], r)})
+		}
+	}
+	rep.TracesValidated += compared
+	rep.Extra["generated_vectors_replayed"] = compared
+	if len(keys) > 0 {
+		k := keys[len(keys)/2]
+		v, r := vecs[k], obs[k]
+		rep.Sample(map[string]interface{}{"kind": "generated-vector", "module": subs[r.src].Name, "writer": fmt.Sprintf("%+v", v.b),
+			"required": map[string]int{"n": v.n, "errAt": v.errAt, "calls": v.calls, "delivered": v.dlen}, "observed": describe(r)})
+	}
+
+	// (T) every run judged by TLC
+	judge(rep, subs, recs)
+	for _, i := range []int{len(recs) / 3, 2 * len(recs) / 3, len(recs) - 1} {
+		r := recs[i]
+		rep.Sample(map[string]interface{}{"kind": "recorded-run", "module": subs[r.src].Name, "writer": fmt.Sprintf("%+v", r.b), "observed": describe(r)})
+	}
+	rep.Extra["runs"] = len(recs)
+	rep.Extra["modules"] = len(subs)
+	rep.Exhaustive = false
+	rep.Assumptions = []string{
+		"fmt.Fprint/Fprintf/Fprintln perform exactly one Write on the underlying writer per call (Go standard library)",
+		"the instrumented writer implements the writer models of Writer.tla (checked per run by the Equipment conjunct of WriterTrace.tla)",
+		"writers that cut a Write short without returning an error are outside the property; for them only the count and the nil error are checked",
+		"TLC evaluates the predicates of Writer.tla on the recorded rows correctly; the byte comparison with String() is done by the harness (longest common prefix) and handed to TLC as lengths",
+	}
+	rep.Finish()
+}
